@@ -31,8 +31,10 @@ SLICE = "core::slice::<impl [T]>::"
 MAXH = 4
 
 # receiver types of `.compile()` whose code leaves one value (an expression) / none (statements); a type in neither set makes the word undecided
-EXPR_TYPES = ("math_expr::Expr", "value::Value", "callable::Callable", "list::List", "list::Index", "map::Map", "number::Number", "string::AstString",
-              "function::Function", "ident::Ident", "dot_lookup::DotChain", "dot_lookup::DotLookupOption")
+EXPR_TYPES = ("math_expr::Expr", "value::Value", "callable::Callable", "list::List", "map::Map", "number::Number", "string::AstString",
+              "function::Function", "ident::Ident")
+# code that turns the one value on the stack into another one (`[i]`, `.f`, `.m(..)`): starts with exactly the receiver on the stack, leaves one value
+POSTFIX_TYPES = ("list::Index", "dot_lookup::DotChain", "dot_lookup::DotLookupOption")
 STMT_TYPES = ("function_body::Block", "declaration::Declaration", "if_statement::IfStatement", "if_statement::ElseStatement", "while_loop::WhileLoop",
               "number_loop::NumberLoop", "assignment::Assignment", "reassignment::Reassignment", "print_statement::PrintStatement",
               "r#return::ReturnStatement", "assertion::Assertion", "loop_control_flow::Break", "loop_control_flow::Continue", "class::Class",
@@ -132,7 +134,37 @@ def handler_outcomes(F, fn, h0, args):
         if argv is None:
             return NotImplemented
         return absint.mkbool(len(argv.fields) == 0)
+    def a_iter(it, p, fid, f, t, a):
+        if argv is None:
+            return NotImplemented
+        _height(p, h0)["ai"] = 0
+        return Opaque("args-iter")
+
+    def a_next(it, p, fid, f, t, a):
+        x = a[0] if a else None
+        n_ = 0
+        while isinstance(x, Ptr) and n_ < 6:
+            x = it.deref(p, x)
+            n_ += 1
+        if argv is None or not (isinstance(x, Opaque) and x.tag == "args-iter"):
+            return NotImplemented
+        fr = _height(p, h0)
+        i = fr.get("ai", 0)
+        fr["ai"] = i + 1
+        return some(argv.fields[i]) if i < len(argv.fields) else NONE
+
+    def as_bytes(it, p, fid, f, t, a):
+        x = a[0] if a else None
+        n_ = 0
+        while isinstance(x, Ptr) and n_ < 6:
+            x = it.deref(p, x)
+            n_ += 1
+        if isinstance(x, Str):
+            return Tup([Int(b, "u8") for b in x.s.encode()])
+        return NotImplemented
     models = dict(tables.MODELS)
+    models.update({"core::str::<impl str>::as_bytes": as_bytes, "alloc::string::String::as_bytes": as_bytes, SLICE + "iter": a_iter,
+                   "core::iter::traits::iterator::Iterator::next": a_next})
     models.update({
         CTX + "stack_size": stack_size, CTX + "pop": pop, CTX + "push": push, CTX + "push_front": push, CTX + "clear_stack": clear,
         CTX + "clear_and_set_stack": clear_set, CTX + "ref_clear_local_operating_stack": ref_clear, CTX + "get_last_op_item": last,
@@ -160,6 +192,14 @@ class Effects:
         self.evals = 0
 
     def get(self, name, h, args):
+        if name.startswith("#"):
+            # an instruction written by its raw id (`CompiledItem::Instruction { id: MAKE_INT, .. }`)
+            import opcodes
+            names = opcodes.tables(self.F)["names"]
+            try:
+                name = names[int(name[1:])]
+            except (KeyError, IndexError, ValueError):
+                raise AnchorMissing("opcode " + name)
         k = (name, h, args)
         if k not in self.cache:
             fn = self.F.fn(IMPL + name)
@@ -180,6 +220,8 @@ def literal_args(item):
             out.append(v.s)
         elif isinstance(v, Int):
             out.append(str(v.v))
+        elif isinstance(v, Opaque) and v.tag.startswith("str:str:") and len(v.tag) > 8:
+            out.append(v.tag[8:] + "R")      # a constant prefix followed by a register name (see str_add below): `+#3`
         else:
             out.append(None)
     return tuple(out)
@@ -199,11 +241,11 @@ def walk(word, roles, eff, start=0):
     work = [(0, start)]
     while work:
         k, h = work.pop()
-        if k in seen:
-            if seen[k] != h:
-                problems.append(("height", k, "position %d of the word is reached with %d and with %d operands" % (k, seen[k], h)))
+        # a position may be reached with different heights (the back edge of a from-loop arrives with the value `counter += step` left behind; the
+        # loop test clears the stack): every (position, height) pair is walked once
+        if (k, h) in seen:
             continue
-        seen[k] = h
+        seen[(k, h)] = True
         if k == n:
             ends.add(h)
             continue
@@ -214,7 +256,11 @@ def walk(word, roles, eff, start=0):
             if role is None:
                 problems.append(("role", k, "code(%s): the receiver type of its compile call is not known to the rule" % x[1]))
                 continue
-            if role == "stmts":
+            if role == "postfix":
+                if h != 1:
+                    problems.append(("entry", k, "code(%s) (an index / member access: it works on the one value on the stack) starts with %d value(s) on the operand stack" % (x[1], h)))
+                work.append((k + 1, 1))
+            elif role == "stmts":
                 if h != 0:
                     problems.append(("entry", k, "code(%s) (statements) starts with %d value(s) on the operand stack" % (x[1], h)))
                 work.append((k + 1, 0))
@@ -260,13 +306,16 @@ def walk(word, roles, eff, start=0):
 def _role_of_type(ty):
     ty = mir.strip_generics(ty) if hasattr(mir, "strip_generics") else ty
     for t in LITERAL_TYPES:
-        if ty.endswith(t):
+        if t in ty:
             return "literal"
+    for t in POSTFIX_TYPES:
+        if t in ty:
+            return "postfix"
     for t in EXPR_TYPES:
-        if ty.endswith(t):
+        if t in ty:
             return "expr"
     for t in STMT_TYPES:
-        if ty.endswith(t):
+        if t in ty:
             return "stmts"
     return None
 
@@ -291,7 +340,22 @@ def words_with_roles(F, fn, args, x=None, extra_models=None, max_paths=4096):
             if role:
                 roles[recv.tag] = role
         return r
-    models = {}
+    base_add = jumps.MODELS.get("core::ops::arith::Add::add")
+
+    def str_add(it, p, fid, f, t, a):
+        x = seqgen.deref_all(it, p, a[0]) if a else None
+        if isinstance(x, Str):
+            y = seqgen.deref_all(it, p, a[1]) if len(a) > 1 else None
+            return Str(x.s + y.s) if isinstance(y, Str) else Opaque("str:" + x.s)
+        return base_add(it, p, fid, f, t, a) if base_add else NotImplemented
+
+    def opaque_answer(it, p, fid, f, t, a):
+        return Opaque("answer")
+    models = {"core::ops::arith::Add::add": str_add, "alloc::borrow::ToOwned::to_owned": absint._ident,
+              # what the folder / the type checker says about an operand is an input of the generator: both answers are explored, nothing is inlined
+              "compiler::ast::value::CompileTimeEvaluate::try_constexpr_eval": opaque_answer,
+              "compiler::ast::math_expr::Expr::try_constexpr_eval": opaque_answer, "compiler::ast::math_expr::Expr::for_type": opaque_answer,
+              "compiler::ast::value::Value::for_type": opaque_answer, "compiler::ast::r#type::IntoType::for_type": opaque_answer}
     for k, v in list(jumps.MODELS.items()) + list(seqgen.MODELS.items()):
         if v is jumps._compile_model or v is seqgen._compile_model:
             models[k] = compile_model
@@ -342,7 +406,7 @@ def shapes(F):
             out.append(("opassign|index|%s" % op, "`a[i] %s b`" % op, cd, [binop(op, lhs=expr("Index", [Opaque("lhs"), Opaque("lhsindex")]))] + st, 1, None, None))
         if "DotLookup" in en:
             out.append(("opassign|field|%s" % op, "`a.f %s b`" % op, cd, [binop(op, lhs=expr("DotLookup", [Opaque("lhs"), Opaque("lhschain"), Opaque("ty")]))] + st, 1, None, None))
-    for name, fields, label in (("UnaryNot", [Opaque("lhs")], "`!a`"), ("UnaryMinus", [Opaque("lhs")], "`-a`"), ("UnaryUnwrap", None, "`get a`"),
+    for name, fields, label in (("UnaryNot", [Opaque("lhs")], "`!a`"), ("UnaryUnwrap", None, "`get a`"),
                                 ("NilEval", [Opaque("lhs"), Opaque("rhs")], "`(a) or b`"), ("Index", [Opaque("lhs"), Opaque("rhs")], "`a[i]`"),
                                 ("DotLookup", [Opaque("lhs"), Opaque("rhs"), Opaque("ty")], "`a.f`")):
         if name not in en:
@@ -358,11 +422,27 @@ def shapes(F):
             inner = Variant("compiler::ast::math_expr::CallableContents", cn.index("Standard"), "Standard", [Opaque("lhs"), Opaque("fty"), Opaque("rhs")])
             out.append(("expr|call", "`f(args)`", cd, [expr("Callable", [inner])] + st, 1, {"compiler::ast::callable::Callable::new": c15._callable_new}, None))
     two = dict(c15.REV_MODELS, **{c15.NEXT: c15.scripted_next([Opaque("lhs"), Opaque("rhs")])})
-    for path, key, label in (("<compiler::ast::callable::Callable<'_> as compiler::ast::Compile>::compile", "call-arguments", "`f(a, b)` (arguments and the call)"),
-                             ("<compiler::ast::list::List as compiler::ast::Compile>::compile", "list-literal", "`[a, b]`")):
-        g = [f for f in F.crates["compiler"].fns if mir.strip_generics(f.path) == mir.strip_generics(path) or f.path == path]
-        if g:
-            out.append(("expr|%s" % key, label, g[0], [Opaque("self"), Opaque("state")], 1, two, None))
+    lc = F.fn("<compiler::ast::list::List as compiler::ast::Compile>::compile")
+    if lc is not None:
+        out.append(("expr|list-literal", "`[a, b]`", lc, [Opaque("self"), Opaque("state")], 1, two, None))
+    # `f(a, b)`: the arguments, the load of the callee (an instruction the caller hands in: `load_fast <register>`) and the call.  (The loop that
+    # loads the parked arguments back is not followed by the evaluation - `call` takes whatever is on the stack - so this shape shows the parking
+    # and the call, not the number of arguments that arrive.)
+    cc_ = [f for f in F.crates["compiler"].fns if f.path.startswith("<compiler::ast::callable::Callable") and f.path.endswith("as compiler::ast::Compile>::compile")]
+    ca, da_ = F.adt("compiler::ast::callable::Callable"), F.adt("compiler::ast::callable::CallableDestination")
+    cia = F.adt(jumps.CI)
+    if cc_ and ca is not None and da_ is not None and cia is not None:
+        civ = [v["name"] for v in cia["variants"]]
+        load = Variant(jumps.CI, civ.index("Instruction"), "Instruction", [Opaque("op:load_fast"), Tup([Opaque("callee-register")])])
+        for dv_i, dv in enumerate(da_["variants"]):
+            selfs = [NONE, some(Opaque("self-register"))] if any("Option" in f["ty"] for f in dv["fields"]) else [None]
+            for sr in selfs:
+                fields = [load if "CompiledItem" in f["ty"] else (sr if "Option" in f["ty"] else Opaque(f["name"] or "f")) for f in dv["fields"]]
+                dest = Variant("compiler::ast::callable::CallableDestination", dv_i, dv["name"], fields)
+                node = Variant("compiler::ast::callable::Callable", 0, ca["variants"][0]["name"],
+                               [dest if "CallableDestination" in f["ty"] else Opaque(f["name"] or "f") for f in ca["variants"][0]["fields"]])
+                out.append(("expr|call-arguments|%s%s" % (dv["name"], "" if sr is None else ("|self" if sr is not NONE else "|plain")),
+                            "`f(a, b)` (%s%s)" % (dv["name"], "" if sr is None or sr is NONE else ", a method"), cc_[0], [node, Opaque("state")], 1, two, None))
     mc = F.fn("<compiler::ast::map::Map as compiler::ast::Compile>::compile")
     if mc is not None:
         pairs = dict(c15.REV_MODELS, **{c15.NEXT: c15.scripted_next([Tup((Opaque("lhs"), Opaque("rhs"))), Tup((Opaque("k2"), Opaque("v2")))]),
@@ -376,18 +456,32 @@ def shapes(F):
         for vi, v in enumerate(da["variants"]):
             if len(v["fields"]) == 1:
                 out.append(("statement|%s" % v["name"], "statement %s" % v["name"], dc, [Variant(DECL, vi, v["name"], [Opaque("lhs")]), Opaque("state")], 0, None, None))
-    for adt, label in (("compiler::ast::if_statement::IfStatement", "if"), ("compiler::ast::if_statement::ElseStatement", "else"),
-                       ("compiler::ast::while_loop::WhileLoop", "while"), ("compiler::ast::r#return::ReturnStatement", "return"),
-                       ("compiler::ast::print_statement::PrintStatement", "print"), ("compiler::ast::assertion::Assertion", "assert")):
+    from props import C09 as c09
+    import itertools
+    from absint import TRUE, FALSE
+    ifc, elc, whc, frc = c09.compile_fn(F, c09.IF), c09.compile_fn(F, c09.ELSE), c09.compile_fn(F, c09.WHILE), c09.compile_fn(F, c09.FROM)
+    for has_else in (False, True):
+        over = {"else_statement": some(Opaque("else_statement")) if has_else else NONE}
+        out.append(("statement|if%s" % ("-else" if has_else else ""), "`if c {..}%s`" % (" else {..}" if has_else else ""), ifc, [c09.node(F, c09.IF, over), Opaque("state")], 0, None, None))
+    ea_ = F.adt(c09.ELSE)
+    for vi, v in enumerate((ea_ or {}).get("variants", [])):
+        out.append(("statement|else|%s" % v["name"], "`else` arm (%s)" % v["name"], elc, [Variant(c09.ELSE, vi, v["name"], [Opaque("content")]), Opaque("state")], 0, None, None))
+    for x in (None, "Break", "Continue"):
+        out.append(("statement|while|%s" % (x or "plain"), "`while c {..}`%s" % (" with a %s" % x.lower() if x else ""), whc, [c09.node(F, c09.WHILE), Opaque("state")], 0, None, x))
+    for inclusive, step, coll in itertools.product((True, False), (False, True), (False, True)):
+        over = {"inclusive": TRUE if inclusive else FALSE, "step": some(Opaque("step")) if step else NONE, "name_is_collision": TRUE if coll else FALSE}
+        out.append(("statement|from|%s|%s|%s" % ("through" if inclusive else "to", "step" if step else "nostep", "collision" if coll else "fresh"),
+                    "`from a %s b%s`%s" % ("through" if inclusive else "to", " step s" if step else "", " (counter name collides)" if coll else ""),
+                    frc, [c09.node(F, c09.FROM, over), Opaque("state")], 0, None, None))
+    for adt, label in (("compiler::ast::r#return::ReturnStatement", "return"), ("compiler::ast::print_statement::PrintStatement", "print"),
+                       ("compiler::ast::assertion::Assertion", "assert")):
         g = F.fn("<%s as compiler::ast::Compile>::compile" % adt)
         a = F.adt(adt)
         if g is None or a is None:
             continue
         for vi, v in enumerate(a["variants"]):
             node = Variant(adt, vi, v["name"], [Opaque(f["name"] or "f%d" % i) for i, f in enumerate(v["fields"])])
-            for x in ((None, "Break", "Continue") if label == "while" else (None,)):
-                out.append(("statement|%s|%s%s" % (label, v["name"], "|" + x if x else ""), "`%s` (%s%s)" % (label, v["name"], ", body with a %s" % x if x else ""),
-                            g, [node, Opaque("state")], 0, None, x))
+            out.append(("statement|%s|%s" % (label, v["name"]), "`%s`" % label, g, [node, Opaque("state")], 0, None, None))
     return out
 
 
